@@ -235,10 +235,10 @@ theorem pkArgs_ge (w : Nat) : ∀ (args : List E) (o : Nat), o + args.length * w
     omega
 
 /-! ## the stack check at the start of a function -/
-theorem prologue_ok (lib : Placed p B) (fa : FAddr) (base : Nat) (params : List String) (body : S)
+theorem prologue_ok (lib : Placed p B) (fa : FAddr) (base : Nat) (vd : Bool) (params : List String) (body : S)
     (m : Mem) (F D : Nat) (fr : Fr p m F D)
-    (hpl : PlacedAt p base (funcCode (cxOf p ck B dA) fa base params body))
-    (hB : base + (funcCode (cxOf p ck B dA) fa base params body).length ≤ B)
+    (hpl : PlacedAt p base (funcCode (cxOf p ck B dA) fa base vd params body))
+    (hB : base + (funcCode (cxOf p ck B dA) fa base vd params body).length ≤ B)
     (hpkM : pkS p.w (entryOff p.w params) body < 256 ^ p.w) :
     (pkS p.w (entryOff p.w params) body ≤ F - 5 * p.w →
       Reach (sphinx p) ⟨base, m⟩ [] ⟨base + prologueLen ck, m⟩) ∧
